@@ -352,7 +352,8 @@ fn run_inner(s: &WireScn, log: &Log, specs: &mut BTreeMap<u32, RuleSpec>, an: &m
                     }
                 }
                 // accept + drain TCP server side, drain UDP
-                while let std::task::Poll::Ready(Ok((st, _))) = listener.on().poll_accept(&mut engine::noop_cx()) {
+                for _ in 0..4 {
+                    let std::task::Poll::Ready(Ok((st, _))) = listener.on().poll_accept(&mut engine::noop_cx()) else { break };
                     tcp_server.push(w.scoped(1, st));
                 }
                 let mut buf = [0u8; 4096];
